@@ -170,11 +170,13 @@ Proof. intros. now apply p_delete_absent. Qed.
 
 (** The strongest history theorem proved for the Patricia trie: every history in which
     - Put uses representable keys,
-    - every Delete is of a key that is absent at that moment (by the specification's state),
-    - DeleteMin / DeleteMax occur on the empty map only, DeleteAll anywhere,
+    - every Delete is of a key that is absent at that moment, or the map holds exactly one key
+      (then the key may be the held one: removal of the last key is proved),
+    - DeleteMin / DeleteMax occur when the map holds at most one key, DeleteAll anywhere,
     - queries are Get, Size, Min, Max, Floor, Ceiling, Select, Rank, Range, RangeSize, All, Match,
     returns exactly the specification's outputs.  Missing for [C06_refines_patricia_full] on the
-    domain [kvalid]: removal of a HELD key (Delete / DeleteMin / DeleteMax through [p_remove]). *)
+    domain [kvalid]: removal of a held key from a map with two or more keys (Delete / DeleteMin /
+    DeleteMax through the re-linking cases of [p_remove]). *)
 Theorem C06_refines_patricia_partial :
   forall (V : Type) (es : list (ev V)), ok_hist [] es -> p_run p_new es = s_run [] es.
 Proof. intros. now apply patricia_refines_partial. Qed.
